@@ -92,6 +92,16 @@ def gen_spec(seed: int, idx: int, tier: str) -> tuple[dict, list[dict], random.R
 # ----------------------------------------------------------------------------- oracles
 
 
+def _alive_at(events: list, proc: int, seq: int) -> bool:
+    """True if proc had not exited / been killed before event number seq."""
+    for ev in events:
+        if ev[0] >= seq:
+            return True
+        if ev[1] == proc and (ev[2] == "exit" or ev[4] == "kill"):
+            return False
+    return True
+
+
 def _top_entry(path: str) -> str:
     parts = path.split("/")
     return "/".join(parts[:2])
@@ -151,6 +161,24 @@ def oracles(spec: dict, inputs: list[dict], r: dict, base: list) -> list[dict]:
             continue  # stdlib fell back to cwd because every temp candidate was made unusable
         V.append(_v("cwd-create", f"{op}|{procworld._pclass(tgt)}", f"proc {pi} {op} {tgt} at seq {seq}", pi))
         break
+    # ---- [isolation] no process ever touches a temp entry that currently belongs to another live run
+    owner: dict[str, int] = {}
+    flagged_iso = False
+    for ev in events:
+        seq, pi, op, path, act = ev[:5]
+        if op in ("exit", "start") or path.startswith("<") or act not in ("ok", "short"):
+            continue
+        natural = ev[6]
+        top = _top_entry(path)
+        if path.split("/")[0] in ("tmp", "alt-tmp", "tmp-real") and "/" in path:
+            if op in ("create", "mkdir", "open-w") and natural == 0 and path == top and top not in owner:
+                owner[top] = pi
+            elif owner.get(top) is not None and owner[top] != pi and natural == 0 and not flagged_iso:
+                if _alive_at(events, owner[top], seq):
+                    V.append(_v("isolation", f"{op}|{procworld._pclass(path)}", f"proc {pi} {op} {path} at seq {seq}: the entry belongs to the live run of proc {owner[top]}", pi))
+                    flagged_iso = True
+            if op in ("unlink", "rmdir") and natural == 0 and path == top:
+                owner.pop(top, None)
     # ---- [leftover] (covers [decoy]: foreign entries must be untouched)
     ini, fin = r["initial"], r["final"]
     left: dict = {}
